@@ -21,8 +21,8 @@
                 Tree/Observe.v — the observation of C11 ([obs_eq_upto_garbage]).
 
    Findings (see known_findings.json): the positional walk duplicated shared elements when kinds interleave and then
-   missed non-splittable divergences (fixed 846db58); the overlap check ran after the merge (fixed 9d6ce2a); a path
-   defined twice in one file loaded silently (fixed 3c33b6d); a rejected MERGE still leaves traces
+   missed non-splittable divergences (fixed 7da9f6b); the overlap check ran after the merge (fixed b692965); a path
+   defined twice in one file loaded silently (fixed 9e78914); a rejected MERGE still leaves traces
    (C11_load_merge_conflict_refuted, known finding C11-load-merge-rollback); unnamed elements below a splittable
    parent are merged by position (known finding C09-unnamed-below-splittable, outside the class of the theorems:
    they have no key). *)
